@@ -85,7 +85,7 @@ def _w_init(modname, use_driver):
     _W["driver"] = None
     if use_driver:
         try:
-            _W["driver"] = lean.Driver()
+            _W["driver"] = lean.Driver(_W["prop"].id)
         except Exception:
             _W["driver"] = None
     signal.signal(signal.SIGALRM, _alarm)
@@ -105,7 +105,7 @@ def _w_eval(item):
     except RuntimeError as e:
         if "driver died" in str(e):
             try:
-                _W["driver"] = lean.Driver()
+                _W["driver"] = lean.Driver(_W["prop"].id)
             except Exception:
                 _W["driver"] = None
             out = {"fails": [F("A", "driver died on the case", "driver-died")], "nontrivial": False, "tags": ["driver-died"]}
@@ -144,7 +144,7 @@ class Engine:
             notes = p.pre_build() or []
         except Exception:
             notes = ["pre_build failed: " + traceback.format_exc()[-800:]]
-        ok, log, secs = lean.build(list(p.prop_modules) + list(p.extra_targets))
+        ok, log, secs = lean.build(list(p.prop_modules) + list(p.extra_targets) + ["drv_" + p.id.lower()])
         res = {"build_ok": bool(ok), "build_s": round(secs, 1), "notes": notes, "build_log_tail": "" if ok else log[-3000:]}
         if ok is None:
             res["infra"] = "lake build timed out"
@@ -219,7 +219,7 @@ class Engine:
             self.say("INFRA: " + leanres["infra"])
             return 2
         lean_ok = leanres["build_ok"] and not leanres["forbidden"] and not leanres["undischarged"]
-        use_driver = leanres["build_ok"] and os.path.exists(lean.DRIVER_BIN)
+        use_driver = leanres["build_ok"] and os.path.exists(lean.driver_bin(p.id))
         broken = []   # proof obligations / correspondences that no longer check
         if not leanres["build_ok"]:
             broken.append("lake build of %s failed: %s" % (p.prop_modules, leanres["build_log_tail"][-600:]))
@@ -402,7 +402,7 @@ def replay(prop, modname, path):
     if case is None:
         print("replay file names no concrete case: %s" % payload.get("no_longer_checks"))
         return 1
-    _w_init(modname, os.path.exists(lean.DRIVER_BIN))
+    _w_init(modname, os.path.exists(lean.driver_bin(prop.id)))
     _, out = _w_eval((0, case, False))
     print(json.dumps({"case": case, "outcome": out}, indent=1, default=str))
     known = [k for k in load_known() if k.get("property") == prop.id and k.get("status", "open") == "open"]
